@@ -146,32 +146,43 @@ func (r *gwRig) send(sock int, b []byte) {
 // before the barrier's PULL_ACK. The forwarder's main loop is sequential and UDP loopback keeps the
 // order per socket pair, so everything the server sent to this socket earlier has arrived by then.
 func (r *gwRig) sync(sock int, timeout time.Duration) ([][]byte, bool) {
-	r.barrier++
-	tok := r.barrier
-	b := []byte{2, byte(tok >> 8), byte(tok), 2}
-	b = append(b, barrierEUI...)
-	r.send(sock, b)
 	var before [][]byte
-	// The harness itself is the only receiver of the forwarder's output channel: the main loop
-	// blocks on every forwarded packet until we take it, so by the time the barrier's ack exists
-	// every packet forwarded before it has been taken here.
-	t := time.NewTimer(timeout)
-	defer t.Stop()
-	for {
-		select {
-		case p, ok := <-r.fwd.Output():
-			if ok {
-				r.got = append(r.got, p)
+	earlier := map[uint16]bool{}
+	// A barrier datagram can be lost (UDP, even on loopback, under memory pressure) and the machine
+	// can be busy: the barrier is repeated before the forwarder is declared dead.
+	for attempt := 0; attempt < 3; attempt++ {
+		r.barrier++
+		tok := r.barrier
+		b := []byte{2, byte(tok >> 8), byte(tok), 2}
+		b = append(b, barrierEUI...)
+		r.send(sock, b)
+		// The harness itself is the only receiver of the forwarder's output channel: the main loop
+		// blocks on every forwarded packet until we take it, so by the time the barrier's ack exists
+		// every packet forwarded before it has been taken here.
+		t := time.NewTimer(timeout)
+	wait:
+		for {
+			select {
+			case p, ok := <-r.fwd.Output():
+				if ok {
+					r.got = append(r.got, p)
+				}
+			case d := <-r.rx[sock]:
+				if len(d) == 4 && d[3] == 4 && d[1] == byte(tok>>8) && d[2] == byte(tok) {
+					t.Stop()
+					return before, true
+				}
+				if len(d) == 4 && d[3] == 4 && earlier[uint16(d[1])<<8|uint16(d[2])] {
+					continue // the ack of an earlier barrier of this call, late
+				}
+				before = append(before, d)
+			case <-t.C:
+				break wait
 			}
-		case d := <-r.rx[sock]:
-			if len(d) == 4 && d[3] == 4 && d[1] == byte(tok>>8) && d[2] == byte(tok) {
-				return before, true
-			}
-			before = append(before, d)
-		case <-t.C:
-			return before, false
 		}
+		earlier[uint16(tok)] = true
 	}
+	return before, false
 }
 
 func (r *gwRig) takeForwarded() []server.GatewayPacket {
@@ -290,6 +301,9 @@ func runGw(c *ctx) error {
 			case op < 9: // datagram
 				ver := byte(r.Intn(4))
 				tok := uint16(r.Intn(65536))
+				if d := tok - rig.barrier; d <= 8 {
+					tok += 1000 // the acknowledgement carries only the token: keep clear of the barrier's tokens
+				}
 				id := []byte{0, 0, 0, 0, 2, 2, 5, 1, 3, 4, byte(r.Intn(256))}[r.Intn(11)]
 				d := []byte{ver, byte(tok >> 8), byte(tok), id}
 				rx := "empty"
@@ -358,7 +372,7 @@ func runGw(c *ctx) error {
 				}
 				c.inflight("gw", append(append([]gwOp{}, ops...), gwOp{Op: "datagram in flight", Lean: fmt.Sprintf("gw.dgram %s %d %s %s", rig.sockHost(sock), rig.sockPort(sock), hx.H(d), rx)}))
 				rig.send(sock, d)
-				acks, ok := rig.sync(sock, 3*time.Second)
+				acks, ok := rig.sync(sock, 5*time.Second)
 				storage.VerifGate = nil
 				if !ok {
 					c.res.Add(hx.Finding{Kind: "propfail", Engine: "gw", Signature: "forwarder-stopped", Case: ops, Impl: "no barrier ack within 3 s after " + hx.H(d),
@@ -434,7 +448,7 @@ func runGw(c *ctx) error {
 					ReceivedAt: time.Now(), Deadline: 1}
 				got := "none"
 				for si := range rig.socks {
-					dg, ok := rig.sync(si, 3*time.Second)
+					dg, ok := rig.sync(si, 5*time.Second)
 					if !ok {
 						c.res.Add(hx.Finding{Kind: "propfail", Engine: "gw", Signature: "forwarder-stopped", Case: ops, Impl: "no barrier ack after a downlink"})
 						rig.close()
